@@ -1,4 +1,22 @@
-(* C10 - placeholder until the theorems are in place. *)
-Require Import RQ.Base RQ.Target.
-Theorem C10_placeholder : True. Proof. exact I. Qed.
-Print Assumptions C10_placeholder.
+(* C10 - A drawing call's effect is independent of earlier calls. *)
+Require Import RQ.Base RQ.F32 RQ.Rect RQ.Pixel RQ.Raster RQ.PathF RQ.Shader RQ.Surface RQ.Target RQ.TargetProofs RQ.OpsProofs RQ.ClipProofs RQ.LayerProofs.
+
+(* (1) The result of any call is a function of the visible state (pixels, size, clip stack, layer stack, transform)
+   and of the rasteriser's state only: two targets that agree on those (whatever path cursor their histories left
+   behind) both return or both fail, and agree again afterwards - in particular on every pixel. *)
+Theorem C10_history_independent : forall a b o a', same_input a b -> step_op a o = Ok a' ->
+  exists b', step_op b o = Ok b' /\ same_input a' b'.
+Proof. exact history_independent. Qed.
+Print Assumptions C10_history_independent.
+
+(* (2) hence for whole histories: replaying a history on a target with the same visible state and a rasteriser in the
+   same (idle) state gives the same visible state *)
+Theorem C10_history_independent_seq : forall ops a b a', same_input a b -> run_ops a ops = Ok a' ->
+  exists b', run_ops b ops = Ok b' /\ same_input a' b'.
+Proof. exact history_independent_seq. Qed.
+Print Assumptions C10_history_independent_seq.
+
+(* (3) the path cursor left by earlier paths is never read: every path starts afresh *)
+Theorem C10_cursor_never_read : forall h t c1 c2 p, rz c1 = rz c2 -> apply_path h t c1 p = apply_path h t c2 p.
+Proof. exact apply_path_cursor_irrelevant. Qed.
+Print Assumptions C10_cursor_never_read.
